@@ -58,6 +58,8 @@ def configs(tier, seed):
                         "params": {"rhomax": rm, "rounds": n}, "cost": 30})
     for c in c01.modeb_configs(tier, ["DOO", "SOO", "StoSOO", "SequOOL"]):
         out.append(dict(c, name="rec-" + c["name"]))
+    for c in c01.modeb_configs(tier, ["StroquOOL"], parts=("B",)):
+        out.append(dict(c, name="rec-" + c["name"], mode="stroquool"))
     out.append({"name": "twin-SOO", "algo": "SOO", "part": "B", "d": 1, "T": 3, "params": {}, "twin": True, "expect_fail": "twin"})
     return out
 
@@ -118,12 +120,34 @@ class Recommend(Observer):
                     ctx.check_ge("rec:best_mean", m(who[0]), m(n), "round %d: deepest-level cell %s has a higher recorded mean" % (t, label(n)))
 
 
+class StroquoolMidQuery(Observer):
+    """a run may stop at any round: once the validation stage has begun, get_last_point() after every round must be a
+    candidate that HAS been re-evaluated and whose validation mean is not exceeded (a query before any candidate was
+    re-evaluated raises - recorded finding F-stroquool-early-query of C01 - and is skipped here)"""
+
+    def __init__(self, led):
+        self.led = led
+
+    def start(self, ctx, cfg, algo, dom):
+        self.ctx, self.algo = ctx, algo
+
+    def after_reward(self, t, r):
+        if getattr(self.algo, "end", False) or not getattr(self.algo, "candidate", None):
+            return
+        stroquool_recommendation(self.ctx, self.algo, self.led, "after round %d: " % t, mid=True)
+
+
 def run_stroquool(ctx, cfg):
     led = Ledger(compare=False)
-    algo, dom, rs, lp = drive(ctx, cfg, [led], last_point=False)
+    algo, dom, rs, lp = drive(ctx, cfg, [led, StroquoolMidQuery(led)], last_point=False)
     if not getattr(algo, "end", False):
         ctx.count("stroquool_not_finished")
         return
+    stroquool_recommendation(ctx, algo, led, "")
+    ctx.count("sym:stroquool_finished")
+
+
+def stroquool_recommendation(ctx, algo, led, when, mid=False):
     ok, lp = ctx.soft_call(algo.get_last_point)
     if not ok:
         return
@@ -138,17 +162,21 @@ def run_stroquool(ctx, cfg):
 
     who = [n for n in cands if n.get_cpoint() is lp]
     if not who:
-        ctx.fail("rec:not_a_candidate", "the recommendation is not one of the re-evaluated candidates")
+        ctx.fail("rec:not_a_candidate", when + "the recommendation is not one of the re-evaluated candidates")
         return
     mw = m(who[0])
+    if mid:
+        ctx.count("sym:stroquool_mid_validation_query")
+        if mw is None and any(m(n) is not None for n in cands):
+            ctx.fail("rec:not_re_evaluated", when + "the recommended candidate %s has not been re-evaluated yet although others have" % label(who[0]))
+            return
     for n in cands:
         if n is who[0]:
             continue
         mn = m(n)
         if mn is None or mw is None:
             continue
-        ctx.check_ge("rec:best_validation_mean", mw, mn, "candidate %s has a higher validation mean" % label(n))
-    ctx.count("sym:stroquool_finished")
+        ctx.check_ge("rec:best_validation_mean", mw, mn, when + "candidate %s has a higher validation mean" % label(n))
 
 
 def run_poo(ctx, cfg):
